@@ -24,6 +24,9 @@ pub enum Ev {
   Burst(u8),
   /// ACKNACK from reader r: base, listed members
   Ack(u8, i64, Vec<i64>),
+  /// discovery announces the matched, unchanged reader again (every SPDP / SEDP refresh does): nothing the
+  /// writer knows about that reader's progress may change
+  Reannounce(u8),
   Match(u8),
   Lose(u8),
   HbTick,
@@ -158,6 +161,11 @@ impl Model for M {
         Ev::Lose(r) => {
           sim.lose_reader(*r);
           rm.remove(r);
+        }
+        Ev::Reannounce(r) => {
+          if let Some(m) = rm.get(r) {
+            sim.match_reader(*r, m.reliable, false);
+          }
         }
         Ev::HbTick => {
           nticks += 1;
@@ -372,6 +380,8 @@ impl Model for M {
         }
       }
       next.push(Ev::Lose(*r));
+      // (a no-op while the property holds: the successor merges with the current state)
+      next.push(Ev::Reannounce(*r));
     }
     for (r, _) in &self.cfg.late {
       if !rm.contains_key(r) {
@@ -519,7 +529,7 @@ pub fn run(tier: &str) -> i32 {
     rep.absorb_bfs(&m.cfg.name.clone(), &m.describe(), &bcfg, st);
     rep.machinery_errors.extend(errs);
   }
-  rep.set("alphabet", json!("Write, WriteBig (3 fragments), WriteTo(r) for matched and for currently unmatched r, Burst(40), Ack(r, base in {prev, prev+1, first, last+1} and the regressing prev-1, set in {{}, {base}, {base,last}, {last,last+1}}), Match(r), Lose(r), HbTick, Repair(r)/RepairFrags(r) when armed, Clean"));
+  rep.set("alphabet", json!("Write, WriteBig (3 fragments), WriteTo(r) for matched and for currently unmatched r, Burst(40), Ack(r, base in {prev, prev+1, first, last+1} and the regressing prev-1, set in {{}, {base}, {base,last}, {last,last+1}}), Match(r), Lose(r), Reannounce(r) (discovery announces the matched reader again), HbTick, Repair(r)/RepairFrags(r) when armed, Clean"));
   rep.assumptions = vec![
     "Puppet readers are truthful: ACKNACK bases never decrease and never exceed last+1 (C03 is the property about that)".into(),
     "Timers are modelled: SendRepairData(r) is offered exactly while rp.repair_mode, SendRepairFrags(r) exactly while fragments are requested (the re-arm rules of Writer::handle_timed_event), heartbeat tick and cache cleaning at any time".into(),
